@@ -7,6 +7,9 @@ pub mod verif_spec {
     pub use crate::verif_spec_stream::*;
     pub use crate::verif_spec_int::*;
     pub use crate::verif_spec_vanilla::*;
+    pub use crate::verif_spec_tbc::*;
+    pub use crate::verif_spec_rc4::*;
+    pub use crate::verif_spec_wrath::*;
 
     pub open spec fn be16(x: u16) -> Seq<u8> { seq![(x / 256) as u8, (x % 256) as u8] }
     pub open spec fn le16(x: u16) -> Seq<u8> { seq![(x % 256) as u8, (x / 256) as u8] }
@@ -21,6 +24,16 @@ pub mod verif_spec {
              ((x / 0x100000000) % 256) as u8, ((x / 0x10000000000) % 256) as u8, ((x / 0x1000000000000) % 256) as u8,
              (x / 0x100000000000000) as u8]
     }
+
+    /// positional reading of be32 used by the Wrath long header (bytes 1..3 of the big-endian u32)
+    pub proof fn lemma_be32_bytes(x: u32)
+        ensures be32(x).len() == 4, be32(x)[1] == ((x / 0x10000) % 256) as u8, be32(x)[2] == ((x / 0x100) % 256) as u8, be32(x)[3] == (x % 256) as u8,
+                x <= 0xFFFF ==> be32(x)[2] == ((x as u16) / 256) as u8 && be32(x)[3] == ((x as u16) % 256) as u8,
+    { }
+
+    pub proof fn lemma_be32_value(x: u32)
+        ensures x as int == (be32(x)[0] as int) * 0x1000000 + (be32(x)[1] as int) * 0x10000 + (be32(x)[2] as int) * 0x100 + (be32(x)[3] as int)
+    { }
 
     // be16/le16/be32/le32 are injective: a value is determined by its bytes
     pub proof fn lemma_be16_inj(a: u16, b: u16)
